@@ -62,7 +62,7 @@ Print Assumptions C12_corrupt_is_ignored.
 
 (* ... and every corruption kind of the model, applied to any cache file, is rejected *)
 Theorem C12_corruptions_unloadable : forall k cf (cur : N),
-  match k with KGarbage | KRemove | KBadHash => True | KVersion v => v <> CACHE_VERSION | KForge _ _ => False end ->
+  match k with KGarbage | KRemove | KBadHash => True | KVersion v | KForeign v _ _ => v <> CACHE_VERSION | KForge _ _ => False end ->
   load_cache (corrupt k cf) cur = None.
 Proof. exact corrupt_unloadable. Qed.
 Print Assumptions C12_corruptions_unloadable.
@@ -149,3 +149,25 @@ Proof.
   vm_compute. repeat split; reflexivity.
 Qed.
 Print Assumptions C12_refuted_colliding_hash.
+
+(* the cache file of another release (any version but the current one), well-formed, with the
+   current configuration hash and matching metadata but statistics from other counting rules, is
+   ignored: not a forgery in the sense of the classifier, and the history stays transparent *)
+Example C12_foreign_version_ignored :
+  let truth := (fun (_ _ : N) => Some (mkS 11 3 2 0 6)) in
+  let h := [Write (1,1) 1 100; Run Check [] 102; Corrupt (KForeign 2 (1,1) (mkS 11 9 2 0 0)); Run Check [] 103; Run StatsFiles [] 104] in
+  has_forgery truth (fun _ => 18) (fun _ => 0) h = false /\ transparent truth (fun _ => 18) (fun _ => 0) h = true /\
+  map fst (snd (exec truth (fun _ => 18) (fun _ => 0) world0 h)) =
+    [[((1,1), mkS 11 3 2 0 6)]; [((1,1), mkS 11 3 2 0 6)]; [((1,1), mkS 11 3 2 0 6)]].
+Proof. vm_compute. repeat split; reflexivity. Qed.
+Print Assumptions C12_foreign_version_ignored.
+
+(* a symbolic link (Copy = another name for the target's content and mtime): an edit of the target
+   one second later is seen through the link *)
+Example C12_symlink_target_edit :
+  let truth := (fun (_ c : N) => if N.eqb c 1 then Some (mkS 2 2 0 0 0) else Some (mkS 12 12 0 0 0)) in
+  let h := [Write (1,1) 1 100; Copy (1,1) (7,1); Run Check [(1,1)] 102; Write (1,1) 2 103; Write (7,1) 2 103; Run Check [(1,1)] 104] in
+  has_racy_rename truth (fun _ => 18) (fun _ => 0) h = false /\ transparent truth (fun _ => 18) (fun _ => 0) h = true /\
+  map fst (snd (exec truth (fun _ => 18) (fun _ => 0) world0 h)) = [[((7,1), mkS 2 2 0 0 0)]; [((7,1), mkS 12 12 0 0 0)]].
+Proof. vm_compute. repeat split; reflexivity. Qed.
+Print Assumptions C12_symlink_target_edit.
